@@ -67,6 +67,10 @@ var c06Other = func() map[string]string {
 var c06DateLike = regexp.MustCompile(`\d{4}-(\d{2}|[A-Za-z]{3})-\d{2}`)
 var c06PlainWord = regexp.MustCompile(`^([^A-Za-z0-9&(]*)([A-Za-z]+)([^A-Za-z0-9]*)$`)
 
+// c06SplitWord: words that may be hyphenated over a line break: plain words and plain numbers of four or more digits
+// (years); in a number the tokenizer keeps '-' as part of the token, so only the line-end rule removes the hyphen.
+var c06SplitWord = regexp.MustCompile(`^([^A-Za-z0-9&(]*)([A-Za-z]+|[0-9]{4,})([^A-Za-z0-9]*)$`)
+
 func openClass(name string) bool {
 	for _, c := range strings.Split(os.Getenv("VERIF_OPEN_CLASSES"), ",") {
 		if c == name {
@@ -215,7 +219,7 @@ func c06Check(ci interface{}) lib.Outcome {
 					// the last word of the line: its remainder stands alone on the next line and ends at a line break
 					k = len(f) - 1
 				}
-				m := c06PlainWord.FindStringSubmatch(f[k])
+				m := c06SplitWord.FindStringSubmatch(f[k])
 				if m == nil || len(m[2]) < 4 || endsLikeHeader(f[k]) || (k == 0 && m[1] != "") || (!lastWord && endsLikeHeader(f[k+1])) {
 					restricted++
 					continue
